@@ -12,6 +12,7 @@ import vxlib as X
 
 SRC = 'datasketches/src/'
 VERUS = shutil.which('verus') or '/usr/local/bin/verus'
+TOOLS_SHA = hashlib.sha1(b''.join(open(os.path.join(HERE, f), 'rb').read() for f in ('vx.py', 'vxlib.py'))).hexdigest()[:12]
 
 def load_unit(name):
     p = name if name.endswith('.json') else os.path.join(ROOT, 'units', name + '.json')
@@ -42,6 +43,7 @@ def generate(unit, repo='/repo', import_mode=False):
         except X.LostAnchor as e:
             g.problems.append({'kind': 'lost-anchor', 'where': 'overlay', 'fn': path, 'detail': str(e)}); continue
         E, G = X.erase_fn(ots)
+        G = [[X.Tok(str(t)) for t in run] for run in G]      # ghost tokens carry no /repo line
         exact = X.strs(E) == X.strs(cur)
         renames = {}
         if import_mode and not exact:
@@ -72,7 +74,9 @@ def generate(unit, repo='/repo', import_mode=False):
         rsig = X.simple_rewrites(X.normalize(rts[:X.body_open(rts, 0)]), unit.get('rewrite_opts'))
         E, G = X.erase_fn(ots)
         osig = E[:X.body_open(E, 0)]
-        same = X.strs(rsig) == X.strs(osig)
+        def _notrail(ts_):
+            ts_ = X.strs(ts_); return [t for i_, t in enumerate(ts_) if not (t == ',' and i_ + 1 < len(ts_) and ts_[i_ + 1] in (')', '>'))]
+        same = _notrail(rsig) == _notrail(osig)
         g.opaque.append({'fn': path, 'file': rel, 'line': rts[0].line, 'signature_matches_repo': same, 'real_sig': ' '.join(rsig) if not same else None, 'overlay_sig': ' '.join(osig) if not same else None})
         if not same: g.problems.append({'kind': 'opaque-signature', 'fn': path, 'detail': 'real: %s | overlay: %s' % (' '.join(rsig), ' '.join(osig))})
     for ent in unit.get('items', []):
@@ -205,10 +209,19 @@ def classify_diag(d, g, gen_lines):
         mm = re.search(r'/\*@([^*]+)\*/', span_text(s))
         return mm.group(1).strip() if mm else None
     csp = sec[0] if sec else prim
+    stmt_sp = prim
+    if 'postcondition' in low and prim is not None:
+        csp = prim; stmt_sp = sec[0] if sec else prim      # Verus: primary = the failed clause, secondary = "at the end of the function body"
     if csp is not None:
         info['clause'] = span_text(csp)[:400]; info['clause_line'] = csp.get('line_start'); info['tag'] = span_tag(csp)
-        if prim is not None and csp is not prim: info['text'] = span_text(prim)[:300]
-        if csp is not prim and info['tag'] is None and prim is not None: info['tag'] = span_tag(prim)
+        if stmt_sp is not None and csp is not stmt_sp: info['text'] = span_text(stmt_sp)[:300]
+        if info['tag'] is None and prim is not None and csp is not prim: info['tag'] = span_tag(prim)
+        if stmt_sp is not None and stmt_sp is not prim:
+            r2 = region_of(stmt_sp.get('line_start', 0))
+            if r2:
+                k2 = stmt_sp.get('line_start', 0) - r2[0]
+                for kk in range(min(k2, len(r2[4]) - 1), -1, -1):
+                    if r2[4][kk] is not None: info['real_line'] = r2[4][kk]; break
     # callee of a failed precondition
     if 'precondition' in low and prim:
         info['callsite'] = info.get('text')
@@ -239,8 +252,9 @@ def add_canaries(g):
         bo = X.body_open(ts, i0)
         if bo is None: continue
         # external_body functions are not verified: skip (look at the text before region for the attribute)
-        before = '\n'.join(lines[max(0, lo - 4):lo])
-        if 'external_body' in before.split('/*<<VX')[0][-200:]: continue
+        before = '\n'.join(lines[max(0, lo - 3):lo]).split('/*<<VX')[0]
+        last_stmt = re.split(r'[;}]', before)[-1]
+        if 'external_body' in last_stmt: continue
         ins = {}
         def can():
             n[0] += 1; expected.append((path, n[0])); return X.tokens('proof { if vx_canary ( %d ) { assert ( false ) ; } }' % n[0])
@@ -303,7 +317,7 @@ def run_unit(unit, repo='/repo', canary=True, keep=False, rlimit=None, workdir=N
         res['status'] = 'undecided'; res['problems'] = g.problems; res['wall_s'] = time.time() - t0; return res
     for r in g.report:
         r['changed'] = bool(r['edits'])
-    key = hashlib.sha1((g.text + '|canary=%s|rlimit=%s|v3' % (canary, rlimit or unit.get('rlimit'))).encode()).hexdigest()
+    key = hashlib.sha1((g.text + '|canary=%s|rlimit=%s|%s' % (canary, rlimit or unit.get('rlimit'), TOOLS_SHA)).encode()).hexdigest()
     cdir = os.path.join(ROOT, '.cache'); cpath_ = os.path.join(cdir, '%s_%s.json' % (unit['name'], key))
     if os.environ.get('VX_NO_CACHE') != '1' and os.path.exists(cpath_) and not keep:
         try:
